@@ -40,6 +40,7 @@ func runC15(c *Ctx, r *Report) {
 	c15R13(c, r, "C15.R13")
 	c15R14(c, r, "C15.R14")
 	c15R15(c, r, "C15.R15")
+	c15Cursor(c, r, "C15.R16")
 }
 
 // docOptions extracts the option keywords at block depth 1 of a "Syntax:" doc block.
